@@ -85,7 +85,7 @@ def callee_id(t):
 
 
 class Program:
-    def __init__(self, facts_dir, run=None):
+    def __init__(self, facts_dir, run=None, resolve_renames=True):
         self.dir = facts_dir
         self.units = []
         self.bodies = {}      # id -> Body  (first unit wins; bin bodies get "bin:" prefix if clash)
@@ -134,6 +134,73 @@ class Program:
             for m in d["mods"]:
                 self.mods.setdefault(m["path"], m)
         self._callers = None
+        self.renamed = {}
+        if resolve_renames:
+            self._resolve_renamed_anchors()
+            self._canonical_param_names()
+
+    def _canonical_param_names(self):
+        """rules refer to a function's parameters by the names they had on the unchanged tree (`config.num_wires`, `inputs.proofs`);
+        a renamed parameter is the same parameter: when a function's arity is unchanged, its parameter locals are given back the
+        recorded names (rules/anchors.json), so a rename of a parameter changes nothing for the rules"""
+        p = os.path.join(os.path.dirname(os.path.abspath(__file__)), "anchors.json")
+        if not os.path.exists(p):
+            return
+        tab = json.load(open(p)).get("params", {})
+        for b in self.bodies.values():
+            names = tab.get(b.path)
+            if b.kind == "Closure" or not names or len(names) != b.argc:
+                continue
+            for i, nm in enumerate(names, start=1):
+                if b.locals[i].get("n") != nm:
+                    self.renamed["%s#%d" % (b.path, i)] = "%s (was %s)" % (b.locals[i].get("n"), nm)
+                    b.locals[i]["n"] = nm
+
+    def _resolve_renamed_anchors(self):
+        """A private function that the rule modules name (rules/anchors.json, generated from the unchanged tree) may have been renamed
+        or moved to a sibling module: if its path is gone and exactly one function of the same crate is non-`pub`, has the same
+        signature and was not known before, that function is taken to be the anchor and is given back its old path and name in the
+        loaded facts (bodies, closures, call sites), so every rule keeps working on it.  Anything ambiguous is left alone and the
+        rule then reports the missing anchor."""
+        p = os.path.join(os.path.dirname(os.path.abspath(__file__)), "anchors.json")
+        if not os.path.exists(p):
+            return
+        tab = json.load(open(p))
+        known = set(tab.get("known_paths", []))
+        have = set(f["path"] for f in self.fns.values())
+        missing = [a for a in tab.get("anchors", []) if a["path"] not in have]
+        if not missing:
+            return
+        fresh = [f for f in self.fns.values() if f["crate"] in PRODUCTION_CRATES and f["path"] not in known and f.get("vis") != "pub" and f.get("has_body", True)]
+        for a in missing:
+            cands = [f for f in fresh if f["crate"] == a["crate"] and f.get("inputs") == a["inputs"] and f.get("output") == a["output"]]
+            others = [b for b in missing if b is not a and b["crate"] == a["crate"] and b["inputs"] == a["inputs"] and b["output"] == a["output"]]
+            if len(cands) != 1 or others:
+                continue
+            self._alias(cands[0], a)
+
+    def _alias(self, fn, anchor):
+        new, old = fn["path"], anchor["path"]
+        oldname = old.rsplit("::", 1)[-1]
+        self.renamed[old] = new
+        fn["path"] = old
+        for b in list(self.bodies.values()):
+            if b.path == new or b.path.startswith(new + "::{closure"):
+                self.by_path.get(b.path, []) and self.by_path[b.path].remove(b)
+                b.path = old + b.path[len(new):]
+                b.d["path"] = b.path
+                if b.kind != "Closure":
+                    b.d["name"] = oldname
+                self.by_path.setdefault(b.path, []).append(b)
+            for blk in b.blocks:
+                t = blk["t"]
+                if t.get("k") != "call":
+                    continue
+                for key in ("f", "r"):
+                    v = t.get(key)
+                    if v and (v == new or v.startswith(new + "::<")):
+                        t[key] = old + v[len(new):]
+                        t["name"] = oldname
 
     # ---- lookups -------------------------------------------------------------
     def production_bodies(self):
